@@ -207,6 +207,10 @@ pub trait Task {
     fn cur_sid(&self) -> u32 {
         0
     }
+    /// guarded read-only statistics snapshot (connection tasks)
+    fn stats(&self) -> Option<String> {
+        None
+    }
 }
 
 // ---------------------------------------------------------------------------
@@ -767,6 +771,12 @@ impl Task for ClientConn {
     fn name(&self) -> &str {
         "conn_c"
     }
+    fn stats(&self) -> Option<String> {
+        match &self.st {
+            CState::Running(c) => Some(c.verif_snapshot()),
+            _ => None,
+        }
+    }
     fn ep(&self) -> usize {
         0
     }
@@ -1216,6 +1226,12 @@ impl ServerConn {
 impl Task for ServerConn {
     fn name(&self) -> &str {
         "conn_s"
+    }
+    fn stats(&self) -> Option<String> {
+        match &self.st {
+            SState::Running(c) => Some(c.verif_snapshot()),
+            _ => None,
+        }
     }
     fn ep(&self) -> usize {
         1
